@@ -7,7 +7,8 @@
     PostgreSQL planners).  *)
 From Coq Require Import List NArith ZArith Bool.
 From Atlas Require Import Base.Bytes Qual.Builder Qual.BuilderProofs Qual.Scope Qual.ScopeProofs
-  Qual.RefSkeleton Qual.RefSkeletonProofs Qual.Lexq Qual.LexqProofs Qual.Replay Qual.ReplayProofs Qual.ChainEnd.
+  Qual.RefSkeleton Qual.RefSkeletonProofs Qual.Lexq Qual.LexqProofs Qual.Replay Qual.ReplayProofs Qual.ChainEnd
+  Qual.RefSkeletonSeq Qual.StmtLex Qual.StmtLexProofs Qual.Checkpoint Qual.CheckpointProofs.
 Import ListNotations.
 Open Scope N_scope.
 
@@ -202,9 +203,16 @@ Proof. exact pg_same_namespace. Qed.
     primary-key changes; serial -> other, generated / identity columns and the schema-level
     statements are covered by the oracle stage [plan] only.  With the C16 repairs (RenameObject through enumIdent, schemaPrefix for every
     DROP INDEX) no statement form is excluded any more; [reference r] leaves out only the NEW
-    name of ALTER TYPE ... RENAME TO, which is a definition and bare by SQL syntax. *)
+    name of ALTER TYPE ... RENAME TO, which is a definition and bare by SQL syntax.
+
+    Round 5: the statement for EVERY change set is FALSE of the skeleton, as of the code
+    (C16_skeleton_refuted, finding C16-serial-enum-type-raw): a column type change between a serial
+    type and an enum type writes the enum type RAW -- alterType's "sequence was dropped" arm uses
+    FormatType(To), the bare type name, neither quoted nor qualified (forward for serial -> enum, in
+    the reverse statement for enum -> serial).  It is proved for every change set without such a
+    column change ([change_ok]); serial <-> integer, inspected sequences are inside. *)
 Theorem C16_skeleton_partial :
-  forall (pg : bool) (cs : list RefSkeleton.change),
+  forall (pg : bool) (cs : list RefSkeleton.change), Forall change_ok cs ->
   forall s r, In s (plan_skel pg cs) -> In r (s_refs s) -> reference r ->
   ref_chain (Some []) r = ref_names r /\
   (forall q, q <> [] -> ref_chain (Some q) r = q :: ref_names r) /\
@@ -213,12 +221,22 @@ Proof. exact skeleton_chains. Qed.
 
 (** and no statement form writes a reference to an existing object through bare [Ident] *)
 Theorem C16_skeleton_no_bare_reference :
-  forall (pg : bool) (cs : list RefSkeleton.change) s n,
-  In s (plan_skel pg cs) -> ~ In (RBare n) (s_refs s).
+  forall (pg : bool) (cs : list RefSkeleton.change) s n, Forall change_ok cs ->
+  In s (plan_skel pg cs) -> ~ In (RBare n) (s_refs s) /\ ~ In (RRaw n) (s_refs s).
 Proof.
-  intros pg cs s n Hs Hn. pose proof (skeleton_refs_qualifying pg cs) as K.
+  intros pg cs s n HC Hs. pose proof (skeleton_refs_qualifying pg cs HC) as K.
   unfold stmts_ok in K. rewrite Forall_forall in K. specialize (K s Hs).
-  unfold stmt_ok in K. rewrite Forall_forall in K. exact (K _ Hn).
+  unfold stmt_ok in K. rewrite Forall_forall in K. split; intros Hn; exact (K _ Hn).
+Qed.
+
+(** the witness: table m.t, column c: serial -> enum m.e, qualifier q: the ALTER TABLE statement holds
+    the reference [RRaw e], written as the chain [e] -- not [q; e] -- and the change set is not [change_ok] *)
+Theorem C16_skeleton_refuted :
+  exists cs s n q, In s (plan_skel true cs) /\ In (RRaw n) (s_refs s) /\
+                   ref_chain (Some q) (RRaw n) = [n] /\ q <> [] /\ ~ Forall change_ok cs.
+Proof.
+  destruct skeleton_raw_witness as [s [H1 [H2 [H3 H4]]]].
+  exists w_raw, s, [101], [113]. repeat split; try assumption. discriminate.
 Qed.
 
 (** * 3. CheckChangesScope *)
@@ -303,6 +321,101 @@ Theorem C16_replay_before_fix :
    (dev <> user /\ existsb is_drop cs = true /\ existsb is_addmod cs = true)).
 Proof. exact before_fix_rejects_iff. Qed.
 
+
+(** * 5 (round 5). Schema elements AS INSPECTED: sequence statements in both directions, the reverse
+      of DROP TABLE, and the statement-level grammar the oracle reads the statements with.
+
+    (a) serial -> integer of a column whose serial type carries the inspected SequenceName [sn]
+    ([Some sn]; [sn = []]: none, the name is <table>_<column>_seq), on ANY table, next to ANY other
+    sub-changes, under ANY qualifier [q]: the plan holds  DROP SEQUENCE IF EXISTS <p><seq>  and its
+    reverse  CREATE SEQUENCE IF NOT EXISTS <p><seq> OWNED BY <p><t>.<c>  where <p> is the qualifier
+    prefix ([qual_prefix]: nothing under "", exactly q under q, the table's own schema when unset)
+    and no chain is written inside a literal. *)
+Theorem C16_skeleton_sequence_dropped :
+  forall t subs c fe te sn oth cm q,
+  In (ModifyColumn c fe te (Some sn) None true oth cm) subs ->
+  let o := t_obj t in
+  let seq := SerialType_sequence sn (o_name o) c in
+  let p := qual_prefix q (o_schema o) in
+  In (false, h_drop_sequence, [p ++ [seq]], []) (plan_obs true q [RefSkeleton.ModifyTable t subs]) /\
+  In (true, h_create_sequence, [p ++ [seq]; p ++ [o_name o; c]], []) (plan_obs true q [RefSkeleton.ModifyTable t subs]).
+Proof. exact sequence_dropped. Qed.
+
+(** (b) integer -> serial: CREATE SEQUENCE ... OWNED BY, reverse DROP SEQUENCE, and the ALTER TABLE
+    statement holds the sequence reference inside the literal of  SET DEFAULT nextval('<p><seq>'). *)
+Theorem C16_skeleton_sequence_added :
+  forall t subs c fe te sn oth cm q,
+  In (ModifyColumn c fe te None (Some sn) true oth cm) subs ->
+  let o := t_obj t in
+  let seq := SerialType_sequence sn (o_name o) c in
+  let p := qual_prefix q (o_schema o) in
+  In (false, h_create_sequence, [p ++ [seq]; p ++ [o_name o; c]], []) (plan_obs true q [RefSkeleton.ModifyTable t subs]) /\
+  In (true, h_drop_sequence, [p ++ [seq]], []) (plan_obs true q [RefSkeleton.ModifyTable t subs]) /\
+  exists chains lits, In (false, h_alter_table, chains, lits) (plan_obs true q [RefSkeleton.ModifyTable t subs]) /\
+                      In (p ++ [seq]) lits.
+Proof. exact sequence_added. Qed.
+
+(** the prefix, and the name (an inspected SequenceName is used as it is) *)
+Theorem C16_skeleton_sequence_prefix :
+  forall q ns sn t c,
+  (qual_prefix (Some []) ns = [] /\ (q <> [] -> qual_prefix (Some q) ns = [q]) /\ qual_prefix None ns = opt_name ns) /\
+  ((sn <> [] -> SerialType_sequence sn t c = sn) /\ SerialType_sequence [] t c = seq_name t c).
+Proof. intros q ns sn t c. split; [exact (qual_prefix_cases q ns)|exact (sequence_name sn t c)]. Qed.
+
+(** (c) DROP TABLE, both planners, every table: the reverse statements are the Cmd statements of
+    ADD TABLE of the same table turned into reverse statements -- forward and reverse are qualified
+    alike (the same references through the same qualifying calls), whatever the table carries. *)
+Theorem C16_skeleton_drop_table_reverse :
+  forall pg t,
+  filter s_rev (plan_skel pg [RefSkeleton.DropTable t]) =
+  map rev_of (filter is_cmd (plan_skel pg [RefSkeleton.AddTable t])).
+Proof. exact drop_table_reverse. Qed.
+
+(** (d) the statement-level scanner (Qual/StmtLex.v = the oracle's lexChains, tied on every
+    generated statement by stage [stmtlex]): quoting a chain of names the way Builder.Ident does
+    (quote characters doubled) and scanning it give back exactly the names -- for EVERY name
+    (quote characters, dots, backslashes, anything), both dialects, alone ... *)
+Theorem C16_stmt_lex_round_trip :
+  forall pg l, l <> [] ->
+  lex_stmt pg (render_chain (ident_quote pg) (ident_quote pg) l) = ([l], [], false).
+Proof. exact lex_stmt_chain. Qed.
+
+(** ... and anywhere in a statement: after every text [pre] that leaves the scanner outside
+    identifiers and literals and not right after a word byte, and before every continuation that
+    neither doubles the closing quote nor continues the chain, the chains read are those of [pre],
+    then EXACTLY [l], then those of the rest. *)
+Theorem C16_stmt_lex_round_trip_anywhere :
+  forall pg pre l post o1,
+  l <> [] ->
+  lfeed pg (LNormal false, out0) pre = (LNormal false, o1) ->
+  stops pg post ->
+  exists after,
+    fst (fst (lex_stmt pg (pre ++ render_chain (ident_quote pg) (ident_quote pg) l ++ post))) =
+    rev (o_chains o1) ++ l :: after.
+Proof. exact lex_stmt_chain_anywhere. Qed.
+
+(** (e) [migrate.Planner.checkpoint], schema scope (CheckpointSchema): the replayed schema is diffed
+    against an empty schema of the SAME name, so whatever the dev database's schema is called the
+    checkpoint plan is never rejected by CheckChangesScope; it is the empty plan exactly when the
+    replayed schema holds neither a table nor an (enum) object.  [PlanWithExclude] only removes
+    replayed tables from the diff: a plan with exclusions is never rejected either. *)
+Theorem C16_checkpoint_never_rejected :
+  forall modified q mode dev objs cur,
+  dev <> [] -> forall r, Planner_checkpoint modified (Some q) mode dev objs cur <> PRejected r.
+Proof. exact checkpoint_never_rejects. Qed.
+
+Theorem C16_checkpoint_code :
+  forall modified q mode dev objs cur,
+  dev <> [] ->
+  Planner_checkpoint modified (Some q) mode dev objs cur =
+    match objs, cur with [], [] => PNoPlan | _, _ => PPlanned end.
+Proof. exact checkpoint_code. Qed.
+
+Theorem C16_replay_exclude_never_rejected :
+  forall modified excluded q mode dev user objs cur des,
+  user <> [] -> forall r, Planner_plan_exclude modified excluded (Some q) mode dev user objs cur des <> PRejected r.
+Proof. exact exclude_never_rejects. Qed.
+
 Print Assumptions C16_builder.
 Print Assumptions C16_builder_chain.
 Print Assumptions C16_builder_schema_kept.
@@ -324,6 +437,16 @@ Print Assumptions C16_replay_dev_name_irrelevant.
 Print Assumptions C16_replay_before_fix.
 Print Assumptions C16_skeleton_partial.
 Print Assumptions C16_skeleton_no_bare_reference.
+Print Assumptions C16_skeleton_refuted.
+Print Assumptions C16_skeleton_sequence_dropped.
+Print Assumptions C16_skeleton_sequence_added.
+Print Assumptions C16_skeleton_sequence_prefix.
+Print Assumptions C16_skeleton_drop_table_reverse.
+Print Assumptions C16_stmt_lex_round_trip.
+Print Assumptions C16_stmt_lex_round_trip_anywhere.
+Print Assumptions C16_checkpoint_never_rejected.
+Print Assumptions C16_checkpoint_code.
+Print Assumptions C16_replay_exclude_never_rejected.
 Print Assumptions C16_scope_sound.
 Print Assumptions C16_scope_refuted.
 Print Assumptions C16_scope_code.
@@ -423,11 +546,11 @@ Proof. vm_compute. reflexivity. Qed.
 Example ex_skeleton_modify :
   let t := mkTab (mkObj (Some m_) t_) [] [] [] false in
   plan_chains true (Some []) [RefSkeleton.ModifyTable t
-     [ModifyColumn c_ None (Some (Some m_, e1)) true false false true;
-      ModifyColumn ii None None true true false false;
+     [ModifyColumn c_ None (Some (Some m_, e1)) None None true false true;
+      ModifyColumn ii None None None (Some []) true false false;
       ModifyForeignKey (mkFk [c_] (mkObj (Some m_) [117])) (mkFk [c_] (mkObj (Some m_) [118]))]] =
     [ (false, h_create_sequence, [[seq_name t_ ii]; [t_; ii]]); (true, h_drop_sequence, [[seq_name t_ ii]]);
-      (false, h_alter_table, [[t_]; [e1]; [[118]]]); (true, h_alter_table, [[t_]; [[117]]]);
+      (false, h_alter_table, [[t_]; [e1]; [seq_name t_ ii]; [[118]]]); (true, h_alter_table, [[t_]; [[117]]]);
       (false, h_comment_on, [[t_; c_]]); (true, h_comment_on, [[t_; c_]]) ].
 Proof. vm_compute. reflexivity. Qed.
 
@@ -487,3 +610,62 @@ Proof.
   - repeat constructor; discriminate.
   - unfold sepA, SP, CM, NLc, RP, SQ, LP. intros [H|[H|[H|[H|[H|H]]]]]; discriminate.
 Qed.
+
+(* round 5 *)
+(* C16_skeleton_sequence_dropped / _prefix: posts.id, inspected sequence posts_id_seq, serial -> integer,
+   custom qualifier: DROP SEQUENCE q.posts_id_seq / reverse CREATE SEQUENCE q.posts_id_seq OWNED BY q.t.c;
+   the reverse ALTER TABLE holds the literal *)
+Definition posts_id_seq : bytes := [112;111;115;116;115;95;105;100;95;115;101;113].
+Example ex_sequence_dropped :
+  let t := mkTab (mkObj (Some m_) t_) [] [] [] false in
+  plan_obs true (Some q_) [RefSkeleton.ModifyTable t [ModifyColumn c_ None None (Some posts_id_seq) None true false false]] =
+    [ (false, h_alter_table, [[q_; t_]], []); (true, h_alter_table, [[q_; t_]], [[q_; posts_id_seq]]);
+      (false, h_drop_sequence, [[q_; posts_id_seq]], []);
+      (true, h_create_sequence, [[q_; posts_id_seq]; [q_; t_; c_]], []) ].
+Proof. vm_compute. reflexivity. Qed.
+
+(* C16_skeleton_sequence_added: integer -> serial without an inspected name, qualifier unset: own schema *)
+Example ex_sequence_added :
+  let t := mkTab (mkObj (Some m_) t_) [] [] [] false in
+  plan_obs true None [RefSkeleton.ModifyTable t [ModifyColumn c_ None None None (Some []) true false false]] =
+    [ (false, h_create_sequence, [[m_; seq_name t_ c_]; [m_; t_; c_]], []); (true, h_drop_sequence, [[m_; seq_name t_ c_]], []);
+      (false, h_alter_table, [[m_; t_]], [[m_; seq_name t_ c_]]); (true, h_alter_table, [[m_; t_]], []) ].
+Proof. vm_compute. reflexivity. Qed.
+
+(* C16_skeleton_drop_table_reverse: a MySQL table with a foreign key, a PG table with an index and comments *)
+Example ex_drop_table_reverse :
+  let t := mkTab (mkObj (Some m_) t_) [mkCol c_ None true] [mkIdx ii [c_] false true] [mkFk [c_] (mkObj (Some m_) [117])] true in
+  map (stmt_chains (Some q_)) (filter s_rev (plan_skel false [RefSkeleton.DropTable t])) =
+    [ (true, h_create_table, [[q_; t_]; [q_; [117]]]) ] /\
+  length (filter s_rev (plan_skel true [RefSkeleton.DropTable t])) = 5%nat.
+Proof. split; vm_compute; reflexivity. Qed.
+
+(* C16_stmt_lex_round_trip(_anywhere): the names  a<dq>b  and  c.d  (PG, <dq> = the double quote): the text
+   A <dq>a<dq><dq>b<dq>.<dq>c.d<dq> <sq>x<sq> *)
+Example ex_stmt_lex :
+  let l := [[97; 34; 98]; [99; 46; 100]] in
+  render_chain 34 34 l = [34; 97; 34; 34; 98; 34; 46; 34; 99; 46; 100; 34] /\
+  lex_stmt true ([65; 32] ++ render_chain 34 34 l ++ [32; 39; 120; 39]) = ([l], [[120]], false) /\
+  lfeed true (LNormal false, out0) [65; 32] = (LNormal false, out0) /\ stops true [32; 39; 120; 39] /\
+  lex_stmt true [65; 34; 97; 34] = ([[[97]]], [], true) /\          (* glued to the word before it *)
+  lex_stmt false [96; 97] = ([[[97]]], [], true).                    (* unterminated *)
+Proof. repeat split; try (vm_compute; reflexivity); discriminate. Qed.
+
+(* C16_checkpoint_*: a replayed schema dev with two tables -> planned; empty -> the empty plan;
+   exclusion of t1: the next plan for [t2; t3] only adds t3 *)
+Example ex_checkpoint :
+  Planner_checkpoint never (Some []) 0 n_dev [] [t1; t2] = PPlanned /\
+  Planner_checkpoint never (Some []) 0 n_dev [] [] = PNoPlan /\
+  Planner_plan_exclude never (fun n => bytes_eqb n (rt_name t1)) (Some []) 0 n_dev n_app [] [t1; t2] [t2; t3] = PPlanned /\
+  exclude_tabs (fun n => bytes_eqb n (rt_name t1)) [t1; t2] = [t2].
+Proof. repeat split; vm_compute; reflexivity. Qed.
+
+(* C16_skeleton_refuted / C16_skeleton_partial's hypothesis: serial -> enum is not change_ok, serial -> integer is;
+   what the statement looks like: ALTER TABLE q.t ... TYPE e  (the raw name is not an identifier chain) *)
+Example ex_skeleton_raw :
+  plan_obs true (Some q_) w_raw =
+    [ (false, h_alter_table, [[q_; [116]]], []); (true, h_alter_table, [[q_; [116]]], [[q_; seq_name [116] [99]]]);
+      (false, h_drop_sequence, [[q_; seq_name [116] [99]]], []);
+      (true, h_create_sequence, [[q_; seq_name [116] [99]]; [q_; [116]; [99]]], []) ] /\
+  Forall change_ok [RefSkeleton.ModifyTable w_raw_t [ModifyColumn [99] None None (Some []) None true false false]].
+Proof. split; [vm_compute; reflexivity|]. repeat constructor; intros; reflexivity. Qed.
